@@ -251,13 +251,13 @@ type c22HCase struct {
 	BodyN   string `json:"body_name"`
 	HasAE   bool   `json:"has_ae"`
 	AE      string `json:"ae"`
-	Mode    int    `json:"mode"` // 0 SetBody, 1 SetBodyStream(size), 2 SetBodyStream(-1), 3 SetBodyStreamWriter
+	Mode    int    `json:"mode"` // 0 SetBody, 1 SetBodyStream(size), 2 SetBodyStream(-1), 3 SetBodyStreamWriter, 4 SetBodyRaw, 5 ctx.Write x2
 	PreCE   string `json:"pre_ce"`
 	PreVary string `json:"pre_vary"`
 	CT      string `json:"ct"`
 }
 
-var c22ModeNames = []string{"buffered", "stream-sized", "stream-unsized", "stream-writer"}
+var c22ModeNames = []string{"buffered", "stream-sized", "stream-unsized", "stream-writer", "buffered-raw", "buffered-write"}
 var c22WrapNames = []string{"CompressHandler", "CompressHandlerLevel", "CompressHandlerBrotliLevel"}
 
 type c22nopLogger struct{}
@@ -295,6 +295,12 @@ func c22HandlerFor(cs *c22HCase, body []byte) RequestHandler {
 				w.Flush()         //nolint:errcheck
 				w.Write(body[h:]) //nolint:errcheck
 			})
+		case 4:
+			ctx.Response.SetBodyRaw(body)
+		case 5:
+			h := len(body) / 3
+			ctx.Write(body[:h]) //nolint:errcheck
+			ctx.Write(body[h:]) //nolint:errcheck
 		}
 	}
 	switch cs.Wrap {
@@ -675,6 +681,19 @@ func c22SeqCases(thorough bool) (hs []c22HCase, ps []c22PCase) {
 		for body := range bodies {
 			for mode := 0; mode < 4; mode++ {
 				addH(c22HCase{Wrap: wrap, Level: CompressDefaultCompression, BrLevel: CompressBrotliDefaultCompression, Body: body, HasAE: true, AE: "gzip, deflate, br, zstd", Mode: mode})
+			}
+		}
+	}
+	// (5) the other ways of setting a buffered body (SetBodyRaw, repeated ctx.Write) x every coding x wrappers x bodies
+	for _, mode := range []int{4, 5} {
+		for body := range bodies {
+			if !thorough && body != b200 && body != b4k && body != 6 {
+				continue
+			}
+			for _, tok := range []string{"gzip", "deflate", "br", "zstd", "gzip, deflate, br, zstd"} {
+				for wrap := 0; wrap < 3; wrap++ {
+					addH(c22HCase{Wrap: wrap, Level: CompressDefaultCompression, BrLevel: CompressBrotliDefaultCompression, Body: body, HasAE: true, AE: tok, Mode: mode})
+				}
 			}
 		}
 	}
